@@ -697,6 +697,13 @@ def merge(c, a, b):
                       for (ga, va), (gb, vb) in zip(a.items, b.items)])
     from .strings import XStr, str_merge
     if isinstance(a, (str, XStr)) and isinstance(b, (str, XStr)):
+        def simple(x):
+            return isinstance(x, str) or x.alts is not None or \
+                all(isinstance(p, str) for _, p in x.segs) or len(x.segs) == 1
+        if not (simple(a) and simple(b)):
+            # texts with unknown parts are not merged into one guarded text (the regex matcher
+            # could not work on it): the exploration forks instead
+            raise CannotMerge('structured strings')
         return str_merge(c, a, b)
     from . import ext as _ext
     if isinstance(a, _ext.SByte1) and isinstance(b, _ext.SByte1):
